@@ -94,6 +94,9 @@ Judge(L) ==
       ov == Overlap(M)
   IN IF ~L.compile.ok THEN
           (IF L.compile.cls = "panic" THEN {<<"compile", "compile-panic">>}
+           \* the same declaration compiled in some builds and was refused in others (type inference of a pass-through node follows map
+           \* order): reported as information, the statement of C15 is about declarations Compile accepts (deterministic rejection is C20)
+           ELSE IF L.compile.cls = "unstable" THEN {<<"compile", "INFO:compile-outcome-differs-between-builds">>}
            ELSE IF L.compile.cls = "other" THEN {<<"compile", "NOTE:rejected-for-another-reason">>}
            ELSE IF ~ov THEN {<<"compile", "false-reject">>} ELSE {})
      ELSE IF ov THEN {<<"compile", "overlap-accepted">>}
